@@ -152,7 +152,7 @@ func Run(ctx *core.Ctx) {
 // exploreHistories runs TLC on the reference model for one configuration and
 // returns the exported setup and histories.
 func exploreHistories(ctx *core.Ctx, cfgName string, L int) (*Setup, [][]Step, error) {
-	cfg := fmt.Sprintf("CONSTANT Dev = {}\nCONSTANT CfgName = \"%s\"\nCONSTANT MaxLen = %d\nINIT Init\nNEXT Next\nPROPERTY Pure\nINVARIANT HistoryIndependent\nINVARIANT AllDecided\nINVARIANT ExportSetup\nINVARIANT ExportHistory\nCHECK_DEADLOCK FALSE\n", cfgName, L)
+	cfg := fmt.Sprintf("CONSTANT Dev = {}\nCONSTANT CfgName = \"%s\"\nCONSTANT MaxLen = %d\nINIT Init\nNEXT Next\nPROPERTY Pure\nINVARIANT HistoryIndependent\nINVARIANT ExportSetup\nINVARIANT ExportHistory\nCHECK_DEADLOCK FALSE\n", cfgName, L)
 	res, err := ctx.RunTLC(core.TLCOpts{Module: "SoyBundle", Cfg: cfg, Workers: 4, Timeout: 9 * time.Minute, Label: "histories:" + cfgName})
 	if err != nil {
 		return nil, nil, err
@@ -164,7 +164,7 @@ func exploreHistories(ctx *core.Ctx, cfgName string, L int) (*Setup, [][]Step, e
 	var hists [][]Step
 	for _, p := range res.Printed {
 		if strings.HasPrefix(p, `{"setup"`) {
-			s, err := decodeSetup(p)
+			s, err := DecodeSetup(p)
 			if err != nil {
 				return nil, nil, err
 			}
@@ -189,6 +189,15 @@ func exploreHistories(ctx *core.Ctx, cfgName string, L int) (*Setup, [][]Step, e
 	if len(hists) != want {
 		return nil, nil, fmt.Errorf("TLC exported %d histories for %s, expected %d", len(hists), cfgName, want)
 	}
+	und := 0
+	for _, h := range hists {
+		for _, s := range h {
+			if s.St != "ok" && s.St != "err" {
+				und++
+			}
+		}
+	}
+	ctx.Extra["m2_steps_without_model_claim:"+cfgName] = und // compared with the fresh bundle only
 	// workers print in any order: sort for determinism
 	sort.Slice(hists, func(i, j int) bool { return histKey(hists[i]) < histKey(hists[j]) })
 	return setup, hists, nil
@@ -211,7 +220,7 @@ func trunc(s string, n int) string {
 }
 
 // decodeSetup turns the setup record printed by TLC into sources and values.
-func decodeSetup(js string) (*Setup, error) {
+func DecodeSetup(js string) (*Setup, error) {
 	var raw struct {
 		Setup struct {
 			CfgName string `json:"cfgname"`
@@ -345,19 +354,34 @@ func runHistory(family string, inst *Instance, ops []Op, exp []*Step, fresh map[
 }
 
 // freshOutcomes performs every operation on its own freshly compiled bundle.
-func freshOutcomes(in *Inputs, ops []Op) (map[string]Obs, error) {
+func FreshOutcomes(in *Inputs, ops []Op) (map[string]Obs, error) {
+	res, _, err := FreshOutcomesDiff(in, ops, false)
+	return res, err
+}
+
+// freshOutcomesDiff also reports, per operation, what the operation changed in
+// the shared state of its fresh bundle (nil = nothing).
+func FreshOutcomesDiff(in *Inputs, ops []Op, withDiff bool) (map[string]Obs, map[string]*Diff, error) {
 	res := map[string]Obs{}
+	diffs := map[string]*Diff{}
 	for _, o := range ops {
 		if _, ok := res[o.Key()]; ok {
 			continue
 		}
 		inst, err := NewInstance(in)
 		if err != nil {
-			return nil, err
+			return nil, nil, err
+		}
+		var before *Digest
+		if withDiff {
+			before = DigestOf(inst.SharedRoots()...)
 		}
 		res[o.Key()] = inst.Do(o)
+		if withDiff {
+			diffs[o.Key()] = FirstDiff(before, DigestOf(inst.SharedRoots()...))
+		}
 	}
-	return res, nil
+	return res, diffs, nil
 }
 
 // replayAll replays the histories of one configuration. Returns the number of
@@ -383,7 +407,7 @@ func replayAll(ctx *core.Ctx, setup *Setup, hists [][]Step) (int, int) {
 			}
 		}
 	}
-	fresh, err := freshOutcomes(setup.Inputs, allOps)
+	fresh, err := FreshOutcomes(setup.Inputs, allOps)
 	if err != nil {
 		ctx.ToolError("the model's bundle does not compile (configuration %s): %v\n%s", setup.Cfg.Name, err, setup.Inputs.Files[0].Text)
 		return 0, 0
@@ -453,7 +477,6 @@ func refinement(ctx *core.Ctx, n int) {
 		return
 	}
 	if res.Violated != "" {
-		os.WriteFile("/tmp/purity/refine_fail.txt", []byte(res.Stdout), 0o644)
 		ctx.ToolError("SoyBundleRun is not SoyExec (%s violated): %s", res.Violated, trunc(res.Trace, 600))
 		return
 	}
@@ -500,7 +523,7 @@ func replayFile(ctx *core.Ctx) {
 			exp = append(exp, nil)
 		}
 	}
-	fresh, err := freshOutcomes(r.Inputs, ops)
+	fresh, err := FreshOutcomes(r.Inputs, ops)
 	if err != nil {
 		ctx.ToolError("replay: %v", err)
 		return
